@@ -36,6 +36,14 @@ def full(m: dict) -> dict:
     return {"k": m["k"], "a": m.get("a", 0), "h": m.get("h", 0), "f": bool(m.get("f", False)), "d": m.get("d", 0), "t": m.get("t", "")}
 
 
+ADV_MFR, ADV_SVC = [1, 2, 250], [3, 4]
+
+
+def adv_ok(adv) -> bool:
+    """The advertisement model carries the payloads the device sent, whichever encoding each list used."""
+    return list(adv.manufacturer_data.values()) == [bytes(ADV_MFR)] and list(adv.service_data.values()) == [bytes(ADV_SVC)]
+
+
 def build(m: dict):
     """Device message for a symbolic Session message -> (type id, payload, pb message)."""
     from aioesphomeapi import api_pb2
@@ -83,7 +91,17 @@ def build(m: dict):
     elif k == "hastate":
         msg = pb("SubscribeHomeAssistantStateResponse", entity_id=f"e{d}", once=f)
     elif k == "adv":
-        msg = pb("BluetoothLEAdvertisementResponse", address=d, name=b"n", rssi=-50)
+        # payloads in the current (`data`) or the deprecated (`legacy_data`) encoding, chosen per list
+        def entries(uuid, payload, legacy):
+            e = api_pb2.BluetoothServiceData(uuid=uuid)
+            if legacy:
+                e.legacy_data.extend(payload)
+            else:
+                e.data = bytes(payload)
+            return [e]
+
+        msg = pb("BluetoothLEAdvertisementResponse", address=d, name=b"n", rssi=-50,
+                 manufacturer_data=entries("0x004C", ADV_MFR, d % 2 == 1), service_data=entries("0xFE95", ADV_SVC, (d // 2) % 2 == 1))
     elif k == "rawadv":
         msg = pb("BluetoothLERawAdvertisementsResponse", advertisements=[api_pb2.BluetoothLERawAdvertisement(address=d, rssi=-1, data=b"x")])
     elif k == "free":
@@ -343,7 +361,8 @@ class SessionRun(ClientRun):
                 # no handler for one-shot requests: they go to the subscription handler like every other message
                 c.subscribe_home_assistant_states(lambda e, attr, sid=sid: run.cb.append([sid, "hastate", int(e[1:]), [], run.msg_seq]))
             elif fam == "adv":
-                u = c.subscribe_bluetooth_le_advertisements(lambda adv, sid=sid: (run.cb.append([sid, "adv", adv.address, [], run.msg_seq]), maybe_unsub()))
+                u = c.subscribe_bluetooth_le_advertisements(
+                    lambda adv, sid=sid: (run.cb.append([sid, "adv" if adv_ok(adv) else "VALUE_MISMATCH:adv", adv.address, [], run.msg_seq]), maybe_unsub()))
             elif fam == "rawadv":
                 u = c.subscribe_bluetooth_le_raw_advertisements(lambda m, sid=sid: (run.cb.append([sid, "rawadv", m.advertisements[0].address, [], run.msg_seq]), maybe_unsub()))
             elif fam == "free":
